@@ -35,6 +35,8 @@ EXTENDS Terms
 
 CONSTANTS SetupIds, RegIds, FileIds, CliIds, SrvIds,   \* finite sets of naturals
           TrackObs,                                     \* BOOLEAN: maintain tbl / hist
+          TrackDeps,                                    \* BOOLEAN: events also carry, per output, the
+                                                        \* set of tapes the value depends on (C17)
           Dev                                           \* "none", or the name of ONE deliberate design
                                                         \* error (spec mutant, spec/dev/*.cfg): used to
                                                         \* show that every invariant is able to fail
@@ -76,7 +78,9 @@ Observe(ev, outs) ==
     IF TrackObs
     THEN LET tb == AddAll(tbl, outs) IN
          /\ tbl'  = tb
-         /\ hist' = Append(hist, ev @@ [out |-> IdsIn(tb, outs)])
+         /\ hist' = Append(hist, ev @@ [out |-> IdsIn(tb, outs)]
+                                    @@ (IF TrackDeps THEN [dep |-> [k \in 1..Len(outs) |-> Tapes(outs[k])]]
+                                                     ELSE <<>>))
     ELSE UNCHANGED <<tbl, hist>>
 
 -----------------------------------------------------------------------------
